@@ -146,21 +146,6 @@ def pDict : Nat → P (List (Nat × Option VR))
     | _, _ => none
   | _, _ => none
 
-/-- does the variant of a primitive value suit the VR it sits under (the writer emits the variant's
-bytes, the reader decodes by VR) -/
-def primSuits (vr : VR) : Prim → Bool
-  | .empty => true
-  | .str _ | .strs _ =>
-    [VR.AE, .AS, .CS, .DS, .IS, .LO, .LT, .PN, .SH, .ST, .UC, .UI, .UR, .UT, .UN, .OB].contains vr
-  | .u8 _ => [VR.OB, .UN].contains vr
-  | .i16 _ | .u16 _ => [VR.US, .SS, .OW].contains vr
-  | .i32 _ | .u32 _ => [VR.UL, .SL, .OL].contains vr
-  | .i64 _ | .u64 _ => [VR.UV, .SV, .OV].contains vr
-  | .f32 _ => [VR.FL, .OF].contains vr
-  | .f64 _ => [VR.FD, .OD].contains vr
-  | .tags _ => vr == .AT
-  | .dates _ => [VR.DA, .TM, .DT].contains vr
-
 mutual
   def Dicom.Ops.Obj.suits : Obj → Bool
     | .nil => true
@@ -219,11 +204,7 @@ def runOps (mode : String) (dict : Nat → Option VR) (fuel : Nat) : Nat → Nat
             else
             -- the reference semantics (the property) on the implementation's previous state
             let spec := applySpec dict o steps tag act
-            let isPush := match act with | .pushStr _ | .pushNum _ => true | _ => false
-            if isPush && (spec.2.isNone != (res == "ok") || !(Obj.beq spec.1 impl)) then
-              -- a Push* action gave the attribute a value that is not of the kind of its VR
-              .error s!"PROP-FAIL class=value-type-incompatible-with-vr step={idx} action={actName act} depth={steps.length} spec-ok={spec.2.isNone} impl={res} mode={mode}"
-            else if spec.2.isNone ≠ (res == "ok") then
+            if spec.2.isNone ≠ (res == "ok") then
               .error s!"PROP-FAIL class=op-result-differs-from-documented-semantics step={idx} action={actName act} spec-ok={spec.2.isNone} impl={res}"
             else if !(Obj.beq spec.1 impl) then
               .error s!"PROP-FAIL class=object-differs-from-documented-semantics step={idx} action={actName act} depth={steps.length} result={res}"
